@@ -422,6 +422,7 @@ class C03(core.Check):
         kinds = set()
         had_unprintable = False
         steps = 0
+        trace = []
 
         def viol(inv, step, detail, **sig):
             return {"invariant": inv, "kind": step["op"], "sig": dict(sig, op=step["op"]), "detail": detail, "step": steps}
@@ -553,6 +554,7 @@ class C03(core.Check):
                     got = core.call(lambda: mf.save(real, "/simfs/out/map.map", **kw))
                     text = fs.files["/simfs/out/map.map"].decode("utf-8") if got[0] == "ok" else None
             bump("print." + how)
+            trace.append([how, got[0], core.digest(text) if text is not None else got[1][1], len(fs.history)])
             faulted = len(fs.fired_faults) > fired_before
             if faulted:
                 for f in fs.fired_faults[fired_before:]:
@@ -589,7 +591,7 @@ class C03(core.Check):
                 violation = viol("printed_tokens_differ", step, ctx, keyword=kwd, printed_class=cls_p, expected_class=cls_e, **sig)
                 break
             bump("checked.prints_equal_model")
-        return {"violation": violation, "digest": core.digest([case["model"], case["steps"], case.get("faults")]),
+        return {"violation": violation, "digest": core.digest([case["model"], case["steps"], case.get("faults"), trace]),
                 "nontrivial": len(kinds - {"print"}) >= 3 or had_unprintable or bool(case.get("faults")), "stats": stats, "steps": steps}
 
     def key_kind(self, shadow, key):
